@@ -548,7 +548,14 @@ class Range(Terminal):
         super().__init__(tag)
         self.start = start
         self.stop = stop
-        self._re = re.compile(rf"[{re.escape(self.start)}-{re.escape(self.stop)}]")
+        self._re = re.compile(self.pattern())
+
+    def pattern(self) -> str:
+        """Return a regex pattern matching one character in this range."""
+        if self.start > self.stop:
+            # An empty range is valid, it just never matches.
+            return "(?!)"
+        return rf"[{re.escape(self.start)}-{re.escape(self.stop)}]"
 
     def __str__(self) -> str:
         return f"{self.tag_str()}'{self.start!r}'..'{self.stop!r}'"
@@ -564,8 +571,7 @@ class Range(Terminal):
         """Emit Python code for a character range."""
         gen.writeln("# <Range>")
 
-        pattern = rf"[{re.escape(self.start)}-{re.escape(self.stop)}]"
-        re_var = gen.constant("RE", f"re.compile({pattern!r})")
+        re_var = gen.constant("RE", f"re.compile({self.pattern()!r})")
 
         gen.writeln(f"if match := {re_var}.match(state.input, state.pos):")
         with gen.block():
